@@ -10,6 +10,8 @@ P="$1"
 HERE="$(cd "$(dirname "$0")/.." && pwd)"
 export VERIF_ROOT="$HERE" CARGO_NET_OFFLINE=true
 JOBS="${DVFUZZ_JOBS:-8}"; RUNS="${DVFUZZ_RUNS:-25000}"
+# the raw-document target runs ~40k executions per second: give it ten times the executions
+[ "$P" = C13 ] && [ -z "${DVFUZZ_RUNS:-}" ] && RUNS=250000
 SEED="${VERIF_SEED:-20260926}"
 case "$P" in C02|C03|C04|C06|C07|C09|C13|C15|C19) ;; *) exit 0;; esac
 if ! cargo +nightly fuzz --version >/dev/null 2>&1; then echo "NOTE: cargo-fuzz / nightly not available, fuzz stage skipped"; exit 0; fi
